@@ -29,6 +29,25 @@ CONSTS = [
     ]),
 ]
 
+CONSTS.append(("stun/usages/turn.h", [
+    "TURN_MAGIC_COOKIE",
+    "STUN_USAGE_TURN_COMPATIBILITY_DRAFT9", "STUN_USAGE_TURN_COMPATIBILITY_GOOGLE",
+    "STUN_USAGE_TURN_COMPATIBILITY_MSN", "STUN_USAGE_TURN_COMPATIBILITY_OC2007",
+    "STUN_USAGE_TURN_COMPATIBILITY_RFC5766",
+    "STUN_USAGE_TURN_RETURN_RELAY_SUCCESS", "STUN_USAGE_TURN_RETURN_MAPPED_SUCCESS",
+    "STUN_USAGE_TURN_RETURN_ERROR", "STUN_USAGE_TURN_RETURN_INVALID",
+    "STUN_USAGE_TURN_RETURN_ALTERNATE_SERVER",
+    "STUN_USAGE_TURN_REQUEST_PORT_NORMAL", "STUN_USAGE_TURN_REQUEST_PORT_EVEN",
+    "STUN_USAGE_TURN_REQUEST_PORT_EVEN_AND_RESERVE",
+    "STUN_ATTRIBUTE_CHANNEL_NUMBER",
+]))
+
+# #define lines of stun/usages/turn.c
+CDEFS = [
+    ("stun/usages/turn.c", ["REQUESTED_PROPS_E", "REQUESTED_PROPS_R", "STUN_ATTRIBUTE_MSN_MAPPED_ADDRESS",
+                            "TURN_REQUESTED_TRANSPORT_UDP"]),
+]
+
 TABLES = [
     ("stun/stun5389.c", "utf8_skip_data", "UInt8"),
 ]
